@@ -420,3 +420,77 @@ def check_reader_keeps_groups(ctx, rep, RULE):
     rep.ob(RULE, not bad, f.node, f, construct="%d successful paths of the atom-symbol reader" % (n_ok + len(bad)),
            how="every capture group known non-empty on a path feeds a field of the atom built on that path", witness=w, nontrivial=True,
            key="reader-keeps-groups")
+
+
+def check_parsed_numerals(ctx, rep, RULE):
+    """A number that is written is the number that is read.  Both atom readers (the SMILES atom reader and the decoder's
+    atom-symbol reader) parse decimal groups with int(); on every successful path on which the digits of a capture group
+    were parsed, the field that group feeds is, up to sign, exactly the parsed number -- not a default substituted because
+    the parsed value happened to be falsy ('H0' read as one hydrogen, isotope 0 read as absent).
+
+    The group -> field correspondence is taken from the reader itself (the paths on which the field is a parsed number)."""
+    from sa.sym import Ref, Tup, Num
+    from sa.lin import Lin, eq
+    readers = [("SMILES atom reader", ctx.fn(SU + ".smiles_to_atom")), ("atom-symbol reader", atom_parser(ctx))]
+    for label, f in readers:
+        h = IntFacts(ctx)
+        eng = Engine(ctx, h)
+        h.bind(eng)
+        fr = eng.run_function(f, {f.posparams[0]: Unk((label,))})
+        paths = []
+        for st, v in fr.returns:
+            fields = None
+            if isinstance(v, Obj):
+                fields = dict(v.fields)
+            elif isinstance(v, Tup) and len(v.items) == 2 and isinstance(v.items[1], Ref) and v.items[1].kind == "partial":
+                fields = dict(v.items[1].target[2])
+            if fields is not None:
+                paths.append((st, fields))
+        if not paths:
+            raise AnalysisError("%s has no successful path" % label)
+
+        def prov(t):
+            o = eng.origin.get(t)
+            if o is None or o[0] != "int":
+                return None
+            return h.provenance(eng, o[1])
+        # which field does a group feed?
+        feeds = {}
+        for st, fields in paths:
+            for nm, val in fields.items():
+                if isinstance(val, Num):
+                    for t in val.lin.terms():
+                        g = prov(t)
+                        if g is not None:
+                            feeds.setdefault(g, set()).add(nm)
+        bad = None
+        n = 0
+        for st, fields in paths:
+            on_path = set()
+            for con in st.lin:
+                for t in con[0].terms():
+                    if prov(t) is not None:
+                        on_path.add(t)
+            for val in fields.values():
+                if isinstance(val, Num):
+                    on_path |= {t for t in val.lin.terms() if prov(t) is not None}
+            for t in sorted(on_path, key=str):
+                g = prov(t)
+                n += 1
+                targets = feeds.get(g, set())
+                ok = bool(targets)
+                for nm in targets:
+                    val = fields.get(nm)
+                    if not (isinstance(val, Num) and (st.entails(eq(val.lin - Lin.var(t), 0)) or st.entails(eq(val.lin + Lin.var(t), 0)))):
+                        ok = False
+                        if bad is None:
+                            bad = "on a path of the %s the digits of capture group %s are parsed but the field %r they feed is %s, not " \
+                                  "the parsed number (a written value, e.g. 0, is replaced by a default)" % (label, g[1], nm, str(val)[:40])
+                if not targets and bad is None:
+                    bad = "the digits of capture group %s are parsed by the %s but feed no field" % (g[1], label)
+        if not feeds:
+            raise AnalysisError("%s parses no decimal group" % label)
+        rep.ob(RULE, bad is None, f.node, f, construct="%s: %d parsed numerals on %d successful paths, groups %s"
+               % (label, n, len(paths), sorted("%s->%s" % (g[1], "/".join(sorted(v))) for g, v in feeds.items())),
+               how="field == +/- int(digits) entailed on every path where the digits are parsed", witness=bad, nontrivial=True,
+               key="parsed-numeral/" + label.replace(" ", "-"))
